@@ -52,6 +52,11 @@ CHECKS.append(
      "technique": "model-based testing: bounded-exhaustive enumeration of event sequences plus Hypothesis-generated deeper histories against a reference model of the handshake, on the real node in a deterministic simulation with a virtual clock",
      "text": "All symbol sequences up to depth 3 (quick) / 4 (thorough) over 15 inbound / 13 outbound event kinds on 2 base configurations, and random histories to depth 12 over 4 configurations (0..2 applications, 1..3 peers, node and per-peer cer/cea timeouts, wakeup 1..6 s). The model predicts per step the frames the node must emit (CEA content, result code), application callbacks (none before success), readiness, Peer.connection, Node.route_request outcome, socket closure and the safety/promptness window of the CER/CEA timeout.",
      "note": "Trusted: the virtual socket/clock model (dv/simkernel.py), the reference parser. One CER per connection; timer reference = last bytes received; connects complete at dial time."})
+CHECKS.append(
+    {"id": "C07", "engine": "E4-nodeworld", "category": "exploration", "design_ref": "DESIGN.md section 5 C07",
+     "technique": "property-based testing over event histories (enumerated to depth 2/3, Hypothesis beyond) with a transcript invariant as oracle: every answer frame written to a virtual socket must match exactly one earlier unanswered request read from it",
+     "text": "Histories of 24 event kinds (good and defective requests and answers, stray CEA/DWA/DPA, node-originated requests, DWR/DPR, clock advances) on 1..3 inbound/outbound connections before and after the handshake, with basic and threading applications and randomised scheduling; the monitor is a pure function of the frames the reference parser extracts from the sockets.",
+     "note": "Trusted: virtual socket transcript, reference frame parser; hop-by-hop ids unique per connection by construction."})
 
 _TODO = "check not built yet in this session (planned, see DESIGN.md); not claimed until its machinery is committed"
 NOT_APPLICABLE = [{"property_id": f"C{n:02d}", "reason": _TODO} for n in range(2, 21) if f"C{n:02d}" not in {c["id"] for c in CHECKS}]
